@@ -422,6 +422,10 @@ func (in *Interp) feasible() bool {
 	if in.path.modelOK {
 		return true
 	}
+	if len(in.path.pc) == 0 {
+		in.path.model, in.path.modelOK = map[string]uint64{}, true
+		return true
+	}
 	r := in.checkSat(nil)
 	if r == Sat {
 		in.path.model, in.path.modelOK = in.lastModel, true
